@@ -3,6 +3,7 @@ package checks
 import (
 	"fmt"
 	"strings"
+	"time"
 
 	"github.com/olric-data/olric/internal/verif/core"
 	"github.com/olric-data/olric/internal/verif/sched"
@@ -53,6 +54,14 @@ func regBody(code string) func(e *schedmc.Env) {
 				e.H.Do(e.Tid, "putnx", v, v, func() simcluster.Res { return e.KV.Put(e.Key, []byte(v), simcluster.PutOpt{NX: true}) })
 			case 'X':
 				e.H.Do(e.Tid, "putxx", v, v, func() simcluster.Res { return e.KV.Put(e.Key, []byte(v), simcluster.PutOpt{XX: true}) })
+			case 'n', 'x':
+				// the conditional Puts carrying an expiry option as well (a day: far beyond every read of
+				// the run, the hour-later one included) - the same register operations
+				op, opt := "putnx", simcluster.PutOpt{NX: true, EX: 24 * time.Hour}
+				if ch == 'x' {
+					op, opt = "putxx", simcluster.PutOpt{XX: true, PX: 24 * time.Hour}
+				}
+				e.H.Do(e.Tid, op, v, v, func() simcluster.Res { return e.KV.Put(e.Key, []byte(v), opt) })
 			case 'G':
 				e.H.Do(e.Tid, "get", "", "", func() simcluster.Res { return e.KV.Get(e.Key) })
 			case 'D':
@@ -73,6 +82,7 @@ func c01Programs(tier string) []*schedmc.Program {
 	codes := [][]string{
 		{"P", "P"}, {"P", "G"}, {"P", "D"}, {"N", "N"}, {"X", "D"}, {"P", "X"}, {"N", "D"},
 		{"PG", "PG"}, {"PD", "GG"}, {"D", "GG"}, {"N", "DN"}, {"DP", "X"},
+		{"n", "P"}, {"x", "D"},
 	}
 	entPairs := [][]string{{"EO", "EO"}, {"EO", "EN"}, {"EN", "EN2"}, {"EO", "CC"}, {"EN", "CC"}, {"CC", "CC"}, {"RN", "EO"}, {"RO", "RN"}}
 	cfgs := []c01cfg{
